@@ -112,6 +112,74 @@ func guardedNamedRT(c *h.Ctx) {
 	}
 }
 
+// guardedStreamRT: streams of plain values and values of named types over plain types, the
+// same names recurring: the guard of zson_roundtrip_stream_partial (evaluated by the driver)
+// ⇒ the real stream round-trips, for per-value scope (zsonio.Writer, FormatRecord), per-stream
+// scope (Format) and persist.
+func guardedStreamRT(c *h.Ctx) {
+	m := c.Model()
+	n := c.N(300, 6000)
+	for i := 0; i < n; i++ {
+		r := c.Rng
+		pg := &gen{r: r, plain: true, tame: true}
+		names := []string{"x", "y", "port", "a.b", "é"}
+		r.Shuffle(len(names), func(i, j int) { names[i], names[j] = names[j], names[i] })
+		var pool []*TSpec
+		for k := 0; k < 1+r.Intn(3); k++ {
+			pool = append(pool, named(names[k], pg.genType(1+r.Intn(2))))
+		}
+		cs := &rtCase{Mode: []string{"record", "writer", "format", "writer", "format"}[r.Intn(5)], Pretty: []int{0, 2, 4}[r.Intn(3)]}
+		if cs.Mode != "record" && r.Intn(2) == 0 {
+			cs.Persist = []string{".*", "^x$", "^(x|y)$"}[r.Intn(3)]
+		}
+		for k := 0; k < 2+r.Intn(4); k++ {
+			if r.Intn(4) == 0 {
+				t, v := pg.genCase(1 + r.Intn(2))
+				cs.Vals = append(cs.Vals, tv{t, v})
+				continue
+			}
+			t := cloneT(pool[r.Intn(len(pool))])
+			v := pg.genVal(t, 2, []int{0, 0, 2}[r.Intn(3)])
+			cs.Vals = append(cs.Vals, tv{t, v})
+		}
+		zctx := zed.NewContext()
+		var items []string
+		bad := false
+		for _, x := range cs.Vals {
+			val, err := makeValue(zctx, x.T, x.V)
+			if err != nil {
+				bad = true
+				break
+			}
+			items = append(items, "("+modelTy(val.Type())+" "+modelVal(zctx, val.Type(), val.Bytes())+")")
+		}
+		if bad {
+			continue
+		}
+		ans := m.Call("(C02 guardstream " + strings.Join(items, " ") + ")")
+		c.Eval("guardedstream" + caseKey(cs))
+		c.Res.ModelCases++
+		if ans != "1" {
+			c.Stat("guardedstream:guard-false")
+			continue
+		}
+		if caseHazards(cs).any() {
+			c.Stat("guardedstream:skipped:text-hazard")
+			checkRT(c, cs, true)
+			continue
+		}
+		c.Stat("guardedstream:guard-holds:" + cs.Mode)
+		res := runRT(cs)
+		if !res.ok {
+			kind := "oracle"
+			if res.panic {
+				kind = "panic"
+			}
+			c.Fail(kind, "C02:roundtrip:guarded-stream-fails", fmt.Sprintf("the guard of zson_roundtrip_stream_partial holds but the real stream does not round-trip (%s: %s); text=%q", res.class, res.detail, clip(res.text, 300)), replayObj{Check: "oracle", RT: cs})
+		}
+	}
+}
+
 // ---- quote -------------------------------------------------------------------------------
 
 var quotePool = []string{
